@@ -221,7 +221,7 @@ def queries(tier, seed):
                 qs.append(q_indep(route, step, side, "n2", wmax))
     if tier == "thorough":
         for route in ROUTES:
-            for step in ("transpose", "edit_rel", "edit_abs", "quantise", "set_channel"):
+            for step in STEPS:
                 for side in ("derived", "original"):
                     qs.append(q_indep(route, step, side, "n3", 12))
     return qs
